@@ -122,7 +122,7 @@ def stages(tier):
         Enum('small-trees', _small_chunks, _small_cases,
              'every tree with <= 3 (quick) / 4 (thorough) non-concept branches over vars {a,b,c}, roles {:r,:r-of,:s}, atom k; '
              'concept in {absent,x,"/"} (<=3) or {absent,x} (4); x {default, noop}; ill-formed ones are skipped and counted'),
-        Hyp('random', _cases, 4000, 200000),
-        Hyp('random-deep', lambda: _cases(deep=True), 600, 30000),
+        Hyp('random', _cases, 4000, 150000),
+        Hyp('random-deep', lambda: _cases(deep=True), 600, 20000),
         Hyp('random-large', lambda: _cases(large=True), 300, 15000),
     ]
